@@ -37,10 +37,6 @@ pub fn gen_multi(prop: &PropDef, seed: u64) -> RunSpec {
         fd_table: *r.pick(&[None, Some(1usize), Some(2), Some(3), Some(256)]),
         order_seed: r.next_u64(),
     };
-    if ms.cfgs.iter().any(|c| c.blob.is_some()) {
-        // ingestion into key-value-separated trees is exercised by C08/C14 only (DESIGN 6)
-        spec.ops.retain(|o| !matches!(o, Op::Ingest { .. }));
-    }
     spec.extra = serde_json::to_value(&ms).unwrap();
     spec
 }
